@@ -134,7 +134,7 @@ def l0_suite(funcs, quick=1500, thorough=40000, monitor=None, nontrivial_keys=No
 
 def stat_prefixes(funcs):
     m = {'order': ['order_'], 'layer': ['layer_'], 'layerpair': ['layerpair_'], 'merge_rows': ['merge_rows_'],
-         'merge_values': ['merge_values_'], 'lww': ['lww_']}
+         'merge_values': ['merge_values_'], 'lww': ['lww_'], 'merge_laws': ['merge_laws_']}
     return [p for f in funcs for p in m.get(f, [f])]
 
 def c07_monitor(ctx, res, fn, case, impl, model, spec):
@@ -233,6 +233,119 @@ def c07_nontrivial(fn, args, out):
         return tg[0] == tg[1] or (num(tg[0]) and num(tg[1]))   # not decided by storage-class rank alone
     return True
 
+def _result_part(tokens):
+    """tokens of one observation without its request log (the 'M [ ... ]' / 'M { ... }' group)"""
+    return tokens[:tokens.index('M')] if 'M' in tokens else tokens
+
+def determined_result_monitor(what):
+    """For properties whose statement FIXES what an operation returns (the proved model is that
+    specification): the first operation of a history whose RESULT (status and returned contents;
+    the request log is not part of it) differs from the model's is a concrete failing history.
+    L1 signature."""
+    def mon(ctx, res, case, impl_line, model_line, spec):
+        dn = cmpmod.kv_drop_nodes(case)
+        xs = [x.split() for x in cmpmod.canon(impl_line, dn).split(' ; ')]
+        ys = [y.split() for y in cmpmod.canon(model_line, dn).split(' ; ')]
+        for j, (x, y) in enumerate(zip(xs, ys)):
+            rx, ry = _result_part(x), _result_part(y)
+            if rx != ry:
+                if any(t.startswith('LIE:') for t in y):   # reported by the C14 monitor with its own shape
+                    return
+                res.property_failures.append(dict(suite=res.name, case=case, op_index=j, impl=' '.join(rx)[:800], spec=' '.join(ry)[:800],
+                                                  what=what + f' (operation {j} of the history)'))
+                return
+    return mon
+
+def mutation_order_monitor(ctx, res, case, impl_line, model_line, spec):
+    """protocol order on the IMPLEMENTATION's request log alone: within one operation a version is
+    deleted from current/ only after it was stored under merged/, and superseded versions are
+    retired only after the new version was stored under current/ (a crash or a concurrent reader in
+    between would otherwise find the contents nowhere / without their successor)."""
+    for j, seg in enumerate(impl_line.split(' ; ')):
+        t = seg.split()
+        if 'M' not in t or t[t.index('M') + 1:t.index('M') + 2] != ['[']:
+            continue
+        log = t[t.index('M') + 2:]
+        if ']' in log: log = log[:log.index(']')]
+        stored_m, put_c = set(), False
+        commitlike = any(x.startswith('Pc') for x in log)
+        for x in log:
+            if x.startswith('Pm'): stored_m.add(x[2:])
+            if x.startswith('Pc'): put_c = True
+            if x.startswith('Dc') and commitlike and x[2:] not in stored_m:
+                res.property_failures.append(dict(suite=res.name, case=case, op_index=j, impl=' '.join(log),
+                                                  what=f'version {x[2:]} deleted from current/ before it was stored under merged/'))
+                return
+            if (x.startswith('Pm') or x.startswith('Dc')) and commitlike and not put_c:
+                res.property_failures.append(dict(suite=res.name, case=case, op_index=j, impl=' '.join(log),
+                                                  what=f'superseded version {x[2:]} retired before the new version was stored under current/'))
+                return
+
+def chain(*mons):
+    def mon(*a):
+        for m in mons:
+            m(*a)
+    return mon
+
+def c01_laws_monitor(ctx, res, fn, case, impl, model, spec):
+    """merge_laws: on the implementation's own results, merge(a,b) = merge(b,a),
+    merge(merge(a,b),c) = merge(a,merge(b,c)), merge(a,a) = a"""
+    if fn != 'merge_laws' or not impl or impl[0] == 'P':
+        return
+    parts = ' '.join(impl).split('/')[1:]
+    parts = [x.strip() for x in parts]
+    if len(parts) != 6:
+        return
+    ab, ba, abc, a_bc, aa, a = parts
+    for l, r, what in ((ab, ba, 'merge(a,b) differs from merge(b,a)'), (abc, a_bc, 'merge(merge(a,b),c) differs from merge(a,merge(b,c))'),
+                       (aa, a, 'merge(a,a) differs from a')):
+        if l != r:
+            res.property_failures.append(dict(suite=res.name, case=case, impl=l + ' / ' + r,
+                                              what='merging entries written at different times: ' + what + ' (order / grouping / repetition changes the result)'))
+            return
+
+def c01_two_orders_monitor(ctx, res, case, impl_line, model_line, spec):
+    """after the 'MK' mark two fresh read-only readers merge the versions under current/ in two
+    different orders and dump what they see: the two dumps of the IMPLEMENTATION must be the same
+    entries (whenever the model's two dumps are: entries written at one time by two writers are
+    outside the property)"""
+    xs = [x.split() for x in impl_line.split(' ; ')]
+    ys = [y.split() for y in model_line.split(' ; ')]
+    mk = next((j for j, x in enumerate(xs) if x[:1] == ['MK']), None)
+    if mk is None or len(xs) < mk + 5 or len(ys) < mk + 5:
+        return
+    body = lambda t: t[:t.index('{')] if '{' in t else None
+    d1, d2, m1, m2 = body(xs[mk + 2]), body(xs[mk + 4]), body(ys[mk + 2]), body(ys[mk + 4])
+    if None in (d1, d2, m1, m2) or xs[mk + 1][:1] != ['ok'] or xs[mk + 3][:1] != ['ok']:
+        return
+    if m1 == m2 and d1 != d2:
+        res.property_failures.append(dict(suite=res.name, case=case, op_index=mk + 4, impl=' '.join(d2)[:800], spec=' '.join(d1)[:800],
+                                          what='two read-only readers that merged the same versions in different orders see different entries'))
+
+def c09_l1_monitor(ctx, res, case, impl_line, model_line, spec):
+    """after every history deletion / vacuum the harness opens each retained version (under
+    current/, or created after the cutoff) alone and scans it: 'W n' = n of them could not be read
+    in full.  On the implementation alone."""
+    msegs = model_line.split(' ; ')
+    for j, seg in enumerate(impl_line.split(' ; ')):
+        t = seg.split()
+        mt = msegs[j].split() if j < len(msegs) else []
+        # (a deletion interrupted by a storage fault leaves version objects whose nodes are already
+        #  gone: the model has the same count then; only MORE unreadable versions than that count)
+        if len(t) >= 2 and t[0] == 'W' and t[1].isdigit() and len(mt) >= 2 and mt[0] == 'W' and mt[1].isdigit() and int(t[1]) > int(mt[1]):
+            res.property_failures.append(dict(suite=res.name, case=case, op_index=j, impl=seg.strip(),
+                                              what=f'{t[1]} retained version(s) refer to deleted or unreadable objects after history deletion'))
+            return
+
+def l0_determined(what, funcs=None, domain_only=False):
+    """L0: the function's result is fixed by the property (documented rule = the proved model)"""
+    def mon(ctx, res, fn, case, impl, model, spec):
+        if funcs and fn not in funcs:
+            return
+        if impl != model and (not domain_only or (spec is not None and 'dom' in spec)):
+            res.property_failures.append(dict(suite=res.name, case=case, impl=' '.join(impl)[:600], spec=' '.join(model)[:600], what=what))
+    return mon
+
 PROPS = {}
 
 def register(prop, suites, assumptions=None):
@@ -242,9 +355,11 @@ register('C07', [l0_suite(['order', 'layer', 'layerpair'], monitor=c07_monitor,
                           nontrivial_keys=c07_nontrivial),
                  lambda ctx: l2_suite('faults', name='l2-faults', quick=60, thorough=1200)(ctx)],
          ['SQLite never passes NaN to a virtual table (it converts NaN to NULL)', 'int64 / binary64 value ranges'])
-register('C17', [l0_suite(['lww']), l1_suite(['plain', 'cb'])],
+register('C17', [l0_suite(['lww'], monitor=l0_determined('the merged value is not the one the kv rule fixes (latest time wins; a tombstone beats every value; the earliest tombstone is kept)', domain_only=True)),
+                 l1_suite(['plain', 'cb'], monitor=determined_result_monitor('kv package: a Get / cursor / Diff / TraceHistory result differs from what the rule fixes for this history'))],
          ['kv default configuration: int keys, string values; gob/JSON codecs are third-party'])
-register('C01', [l0_suite(['merge_rows', 'merge_values']), l1_suite(['rows']), l1_suite(['rows'], name='l1f', quick=300)],
+register('C01', [l0_suite(['merge_rows', 'merge_values', 'merge_laws'], monitor=c01_laws_monitor),
+                 l1_suite(['rows'], monitor=c01_two_orders_monitor), l1_suite(['rows'], name='l1f', quick=300)],
          ['all writers of a prefix declare the same column list'])
 
 # ---------------------------------------------------------------- L2 (SQL)
@@ -293,7 +408,7 @@ def desc_sparse_excuse(case, got, want):
         return False
     return rg != rw and is_subsequence(rg, rw)
 
-def l2_suite(profile, quick=60, thorough=1500, native=True, name=None, extra_monitor=None, level='l2', binary='harness'):
+def l2_suite(profile, quick=60, thorough=1500, native=True, name=None, extra_monitor=None, level='l2', binary='harness', determined=None):
     nm = name or f'l2-{profile}'
     def f(ctx):
         res = Result(f'{nm}', f'L2: random SQL statement programs (profile {profile}: INSERT/UPDATE/DELETE/SELECT with key '
@@ -379,7 +494,12 @@ def l2_suite(profile, quick=60, thorough=1500, native=True, name=None, extra_mon
                         else:
                             res.property_failures.append(m)
                         continue
-                    res.mismatches.append(dict(suite=res.name, case=c, op_index=j, impl=' '.join(x)[:1500], model=' '.join(y)[:1500]))
+                    if determined and _result_part(x) != _result_part(y):
+                        # the property fixes what this operation returns (the proved model is that specification)
+                        res.property_failures.append(dict(suite=res.name, case=c, op_index=j, impl=' '.join(_result_part(x))[:1500],
+                                                          spec=' '.join(_result_part(y))[:1500], what=determined + f' (operation {j} of the history)'))
+                    else:
+                        res.mismatches.append(dict(suite=res.name, case=c, op_index=j, impl=' '.join(x)[:1500], model=' '.join(y)[:1500]))
                     break
             # --- native reference (the property itself for a single writer)
             for j, (s3, nat) in enumerate(pairs):
@@ -608,7 +728,8 @@ register('C06', [l2_suite('single')],
           'write times set explicitly and non-decreasing', 'TEXT values are valid UTF-8'])
 register('C08', [l2_suite('single')], ['TEXT values are valid UTF-8 (others must be refused)'])
 
-register('C02', [l0_suite(['merge_rows', 'merge_values']), l2_suite('multi', native=False, extra_monitor=c02_monitor)],
+register('C02', [l0_suite(['merge_rows', 'merge_values'], monitor=l0_determined('merging two entries written at different times does not give the result the documented rule fixes', funcs=['merge_values'], domain_only=True)),
+                 l2_suite('multi', native=False, extra_monitor=c02_monitor)],
          ['write times set explicitly (second granularity); all writers declare the same columns'])
 
 # ---------------------------------------------------------------- crash points (C04)
@@ -828,7 +949,10 @@ def c09_monitor(ctx, res, case, impl_line, model_line, spec):
                         shape = 'vacuum_purges_delete_marker_older_unmerged_write'
                 else:
                     res.stats_tie_excused = getattr(res, 'stats_tie_excused', 0) + 1
-        elif reach != ['ok']:
+        elif reach != ['ok'] and not (' F Dm ' in case or ' F Dn ' in case):
+            # (a vacuum interrupted by a storage fault between its node deletions and its version
+            #  deletions leaves version objects under merged/ without their nodes: histories with
+            #  such a fault are compared with the model only)
             what = 'a remaining version refers to a deleted or unreadable object: ' + ' '.join(reach)
         if what:
             m = dict(suite=res.name, case=case, op_index=j + 1, what=what,
@@ -861,18 +985,25 @@ def c15_monitor(ctx, res, case, impl_line, model_line, spec):
 
 register('C13', [l2_suite('ro', native=False, extra_monitor=c13_monitor, name='l2-ro'), l1_suite(['rows', 'plain'])],
          ['the request log of the HTTP proxy in front of gofakes3 sees every storage request'])
-register('C09', [l2_suite('vacuum', native=False, extra_monitor=c09_monitor, name='l2-vacuum'), l1_suite(['rows', 'plain']), l1_suite(['rows'], name='l1f', quick=120)],
+register('C09', [l2_suite('vacuum', native=False, extra_monitor=c09_monitor, name='l2-vacuum'),
+                 l1_suite(['rows', 'plain'], monitor=chain(c09_l1_monitor, determined_result_monitor('after deleting history / vacuum an operation returns something else than the retained contents'))),
+                 l1_suite(['rows'], name='l1f', quick=120, monitor=c09_l1_monitor),
+                 l2_suite('faults', name='l2-faults', quick=80, thorough=1500, extra_monitor=c09_monitor)],
          ['cutoffs are far from the wall clock (version creation times are not controlled at SQL level)'])
-register('C10', [l1_suite(['rows', 'plain']), l2_suite('vacuum', native=False, extra_monitor=c09_monitor, name='l2-vacuum')],
+register('C10', [l1_suite(['rows', 'plain'], monitor=chain(c09_l1_monitor, determined_result_monitor('what remains after a vacuum with this cutoff is not what the cutoff rule fixes'))),
+                 l2_suite('vacuum', native=False, extra_monitor=c09_monitor, name='l2-vacuum')],
          ['version creation times are passed explicitly at the kv level'])
-register('C15', [l2_suite('conn', native=False, extra_monitor=lambda *a: (c15_monitor(*a), c02_monitor(*a)), name='l2-conn')],
+register('C15', [l2_suite('conn', native=False, extra_monitor=lambda *a: (c15_monitor(*a), c02_monitor(*a)), name='l2-conn'),
+                 l0_suite(['merge_rows', 'merge_values'])],
          ['write times have second granularity (SQLiteTimeFormat)'])
 register('C05', [l2_suite('tx', name='l2-tx'), l2_suite('multi', native=False, extra_monitor=c02_monitor, name='l2-multi'),
                  l2_suite('faults', name='l2-faults', quick=80, thorough=1500)],
          ['SQLite calls xBegin once per transaction before the first xUpdate'])
-register('C12', [l2_suite('changes', native=False, name='l2-changes'), l1_suite(['rows'], name='l1f', quick=120)],
+register('C12', [l2_suite('changes', native=False, name='l2-changes', determined='s3db_changes / a read of a version returns other rows than the two versions fix'),
+                 l1_suite(['rows'], name='l1f', quick=120, monitor=determined_result_monitor('a diff / open under storage faults neither fails nor returns the complete answer'))],
          ['storage faults around the two version opens of a diff are injected at the kv level (L1); the SQL level runs fault-free'])
-register('C11', [l2_suite('changes', native=False, name='l2-changes'), l1_suite(['rows', 'plain'])], [])
+register('C11', [l2_suite('changes', native=False, name='l2-changes', determined='reading a recorded version list returns other rows than were visible when it was recorded'),
+                 l1_suite(['rows', 'plain'], monitor=chain(mutation_order_monitor, determined_result_monitor('an open restricted to recorded versions (or a later read) returns other entries than those versions hold')))], [])
 register('C16', [l2_suite('multi', native=False, extra_monitor=c02_monitor, name='l2-multi'), l0_suite(['nodecodec']), l1_suite(['rows']),
                  l2_suite('faults', name='l2-faults', quick=80, thorough=1500)], [])
 def c14_monitor(ctx, res, case, impl_line, model_line, spec):
@@ -895,7 +1026,9 @@ def c14_monitor(ctx, res, case, impl_line, model_line, spec):
                 res.property_failures.append(m)
             return
 
-register('C14', [l1_suite(['rows', 'plain', 'cb'], name='l1f', quick=250, monitor=c14_monitor),
+register('C14', [l1_suite(['rows', 'plain', 'cb'], name='l1f', quick=250,
+                          monitor=chain(c14_monitor, mutation_order_monitor,
+                                        determined_result_monitor('under a storage fault an operation neither failed nor returned the complete, correct result'))),
                  l2_suite('faults', name='l2-faults', quick=80, thorough=1500)],
          ['kv level: faults in the in-process store; SQL level: one-shot HTTP 403 answers of the S3 endpoint during a statement; hangs are bounded by the harness timeout'])
 # ---------------------------------------------------------------- C18 (node encryption)
@@ -1135,5 +1268,6 @@ def l1s_suite(quick=400, thorough=20000):
         return res
     return f
 
-register('C03', [l1s_suite(), l1_suite(['rows', 'plain'], name='l1f', quick=120)],
+register('C03', [l1s_suite(), l1_suite(['rows', 'plain'], name='l1f', quick=120,
+                                       monitor=chain(mutation_order_monitor, determined_result_monitor('an open that succeeded does not contain every version that was committed before it began')))],
          ['requests are atomic; between two scheduling points only one client runs; reads of node objects (immutable, never deleted at this level) are not scheduling points'])
